@@ -243,6 +243,35 @@ def guarded(fn, *a, **kw):
         return None, e
 
 
+class NoAnswer(Exception):
+    """Raised by `guarded_timed` when a library call did not return within the limit (twice)."""
+
+
+def guarded_timed(limit_s, fn, *a, **kw):
+    """guarded() under a SIGALRM watchdog.  A call that normally takes milliseconds and has not returned after
+    `limit_s` seconds is interrupted and repeated once with twice the limit; only if that does not return either
+    the result is (None, NoAnswer).  (No timing signal is used for anything else.)"""
+    import signal
+
+    class _Alarm(BaseException):
+        pass
+
+    def on_alarm(signum, frame):
+        raise _Alarm()
+    for attempt, lim in enumerate((limit_s, 2 * limit_s)):
+        old = signal.signal(signal.SIGALRM, on_alarm)
+        signal.alarm(int(lim))
+        try:
+            try:
+                return guarded(fn, *a, **kw)
+            finally:
+                signal.alarm(0)
+                signal.signal(signal.SIGALRM, old)
+        except _Alarm:
+            continue
+    return None, NoAnswer("no answer within %d s (and within %d s when repeated)" % (limit_s, 2 * limit_s))
+
+
 # ----------------------------------------------------------------------
 # Evidence / replay files
 
